@@ -25,6 +25,10 @@ type c07Scn struct {
 var setChecksumRe = regexp.MustCompile(`(?i)^\s*SET\s+@master_binlog_checksum\s*=`)
 
 func c07Name(r *core.Rng) string {
+	if r.Chance(1, 8) {
+		// white space at either end belongs to the name
+		return []string{" ", "\t", "  ", ""}[r.Intn(4)] + fmt.Sprintf("mysql-bin.%06d", r.Intn(1000000)) + []string{" ", "\t", " \t ", "\n"}[r.Intn(4)]
+	}
 	switch r.Intn(8) {
 	case 7:
 		return "" // the empty name is legal: the master then starts with its first binlog
